@@ -79,11 +79,15 @@ theorem splitRow_is_source_loop (avg : Rat) (havg : 0 < avg) (minSize : Int) (r 
   · simp only [hk, if_true, hnb]
     by_cases h1 : binCount avg r = 1
     · have h1' : ((binCount avg r : Nat) : Rat) = 1 := by rw [h1]; norm_num
-      simp [h1, h1']
+      have h1'' : (1 : Rat) = ((binCount avg r : Nat) : Rat) := h1'.symm
+      simp [h1, h1', ← h1'']
     · have h1' : ¬ ((binCount avg r : Nat) : Rat) = 1 := by
         intro h; exact h1 (by exact_mod_cast h)
       have hb : (binCount avg r == 1) = false := by simpa using h1
-      simp only [hb, h1', if_false, Bool.false_eq_true]
+      have h1'' : ¬ (1 : Rat) = ((binCount avg r : Nat) : Rat) := fun h => h1' h.symm
+      -- robust against `1 == nbins`, `nbins != 1` with the branches exchanged
+      simp only [hb, h1', h1'', if_false, if_true, ne_eq, not_false_eq_true, not_true_eq_false, Bool.false_eq_true,
+        ite_not]
       have hfl : (((binCount avg r : Nat) : Rat)).floor.toNat = binCount avg r := by
         have hc : ((binCount avg r : Nat) : Rat) = (((binCount avg r : Nat) : Int) : Rat) := by push_cast; rfl
         rw [hc, Rat.floor_intCast]; simp
